@@ -183,7 +183,10 @@ impl LuaTypeDecl {
         }
 
         let enum_member_owner = LuaMemberOwner::Type(self.get_id());
-        let enum_members = db.get_member_index().get_members(&enum_member_owner)?;
+        // source order (sort key), not the hash-map order of the member index
+        let enum_members = db
+            .get_member_index()
+            .get_sorted_members(&enum_member_owner)?;
 
         let mut union_types = Vec::new();
         if self.is_enum_key() {
